@@ -36,6 +36,9 @@ func BuildReplay(property, harness, pkg string, r *PathResult) *ReplayFile {
 	rf := &ReplayFile{Property: property, Harness: harness, Package: pkg, Verdict: r.Verdict.String(), Pos: r.Verdict.Pos}
 	var sb strings.Builder
 	for _, v := range r.Vars {
+		if v.Kind == "aux" {
+			continue
+		}
 		e := ReplayEntry{Name: v.Pub, Kind: v.Kind}
 		if v.T == nil {
 			e.Val = uint64(v.Conc)
@@ -113,7 +116,11 @@ func TestVFReplay(t *testing.T) {
 	copyFile(modfile, filepath.Join(opt.Repo, "go.mod"))
 	copyFile(filepath.Join(scratch, "go.sum"), filepath.Join(opt.Repo, "go.sum"))
 	args := []string{"test", "-tags", "verif", "-vet=off", "-count=1", "-overlay", ovPath, "-run", "^TestVFReplay$", "-v", "-timeout", fmt.Sprintf("%ds", int(timeout.Seconds())), "./" + pkgDir}
-	cmd := exec.Command("go", args...)
+	sh := "ulimit -v 12582912; exec go"
+	for _, a := range args {
+		sh += " '" + a + "'"
+	}
+	cmd := exec.Command("sh", "-c", sh)
 	cmd.Dir = opt.Repo
 	cmd.Env = append(os.Environ(), "GOFLAGS=-mod=mod -modfile="+modfile, "GOPROXY=off", "GOSUMDB=off", "GOTOOLCHAIN=local", "GOWORK=off", "VF_REPLAY="+replayPath)
 	var out bytes.Buffer
@@ -126,7 +133,10 @@ func TestVFReplay(t *testing.T) {
 	if m := re.FindStringSubmatch(txt); m != nil {
 		return strings.TrimSpace(m[1]), cmdline, nil
 	}
-	if strings.Contains(txt, "panic:") || strings.Contains(txt, "fatal error:") {
+	if strings.Contains(txt, "panic:") || strings.Contains(txt, "fatal error:") || strings.Contains(txt, "signal: killed") {
+		if !strings.Contains(txt, "panic:") && !strings.Contains(txt, "fatal error:") {
+			return "PANIC out of memory (killed)", cmdline, nil
+		}
 		// a panic outside the harness goroutine, a fatal runtime error, or a timeout
 		idx := strings.Index(txt, "panic:")
 		if idx < 0 {
@@ -158,7 +168,7 @@ func Confirmed(v Verdict, native string) bool {
 	case "DEADLOCK":
 		return strings.HasPrefix(native, "PANIC") && (strings.Contains(native, "deadlock") || strings.Contains(native, "timed out"))
 	case "UNWIND", "ALLOC":
-		return strings.HasPrefix(native, "PANIC") && (strings.Contains(native, "timed out") || strings.Contains(native, "out of memory") || strings.Contains(native, "makeslice") || strings.Contains(native, "too large"))
+		return strings.HasPrefix(native, "PANIC") && (strings.Contains(native, "timed out") || strings.Contains(native, "out of memory") || strings.Contains(native, "makeslice") || strings.Contains(native, "too large") || strings.Contains(native, "cannot allocate") || strings.Contains(native, "out of range"))
 	}
 	return false
 }
